@@ -68,6 +68,10 @@ CHECKS = {
    text="Every program of the bounded grammar (58 320 SQL texts; quick: every 12th) × 4 partition-key sets × N in 1..6 × 3 row sets is planned with and without QueryCluster by the real planner over mock tables; the cluster plan runs against partitions split by the same murmur3 rule, the local plan over their union; fields and rows must agree (order under ORDER BY, any n rows under a bare LIMIT) and whole-query pushdown must keep every output group on one partition.",
    note="The mock QueryCluster mirrors DB.queryCluster (per-partition planning, first partition's fields). Known findings D8, D13, D14, D15 are matched by narrow predicates (specific clause shape plus the exact discrepancy); wrong rows outside those shapes are violations.",
    ref="§3 C11"),
+ "C13": dict(cat="fault_enumeration", tech="exhaustive fault enumeration (deadline positions, partition-failure subsets and modes, size caps) on the real code with a complete run as ground truth",
+   text="Deadlines made to expire after every row position (and already expired) for 30 query shapes; for P in {2,3} every non-empty subset of partitions × 5 failure modes (every k for mid-stream errors) × pushdown and non-pushdown queries with harness-registered handlers; a memory cap tripping at row 1000; and through the web API: query timeout, response-size estimate after every K <= 6, final size check, planning error on /immediate, /async, /run, then a cache hit and the permalink. Each faulted run must error, report the partition missing, answer non-200, or be complete.",
+   note="Deadlines are outlasted deterministically, never raced. The RPC query path is exercised by C20 rather than here. /run and /async (5 s coalescing wait) are exercised for one query each.",
+   ref="§3 C13"),
 }
 
 NOT_YET = {}
